@@ -7,6 +7,8 @@ import (
 	"sort"
 	"strings"
 	"sync"
+	"sync/atomic"
+	"time"
 
 	"github.com/miekg/dns"
 	"pgregory.net/rapid"
@@ -22,12 +24,15 @@ import (
 // k being the position of the operation in the combined sequence Patterns ++ Ops.
 type regOp struct {
 	Remove  bool
+	Lookup  bool // not a registration: the case's request is served at this point of the sequence
 	Pattern string
 }
 
 type muxCase struct {
 	Patterns []string // Handle operations executed first, in this order; handler k belongs to Patterns[k]
-	Ops      []regOp  // further Handle / HandleRemove operations, executed after Patterns
+	Ops      []regOp  // further Handle / HandleRemove operations (and intermediate lookups), executed after Patterns
+	Fresh    string   // how the mux comes to life: "" / "new" = NewServeMux(), "zero" = zero value ServeMux
+	Pre      int      // requests served on the fresh mux BEFORE the first registration (0..3)
 	QName    string
 	QType    uint16
 	NQ       int // number of questions (0..2); the first is QName/QType
@@ -102,7 +107,10 @@ func isSuffix(pat, q []string) bool {
 // route is the reference: index of the pattern whose handler must run, or -1 for REFUSED.
 // matches lists the distinct registered names that are suffixes of the question name, longest first
 // (each with the index of its last registration); the root pattern, having no labels, is last.
-func route(c muxCase) (want int, matches []int, err error) {
+func route(c muxCase) (want int, matches []int, err error) { return routeAt(c, len(c.ops())) }
+
+// routeAt is the reference after the first nops operations of the sequence.
+func routeAt(c muxCase, nops int) (want int, matches []int, err error) {
 	if c.NQ == 0 {
 		return -1, nil, nil
 	}
@@ -118,7 +126,10 @@ func route(c muxCase) (want int, matches []int, err error) {
 	var order []string
 	// the registered set is the result of the operation sequence: names are compared as label
 	// sequences ignoring case, whatever spelling (case, trailing dot) each operation used
-	for i, op := range c.ops() {
+	for i, op := range c.ops()[:nops] {
+		if op.Lookup {
+			continue
+		}
 		l, err := lowerLabels(op.Pattern)
 		if err != nil {
 			return 0, nil, err
@@ -172,7 +183,7 @@ func removalClasses(c muxCase) []string {
 	q, _ := lowerLabels(c.QName)
 	for _, op := range c.ops() {
 		l, err := lowerLabels(op.Pattern)
-		if err != nil {
+		if err != nil || op.Lookup {
 			continue
 		}
 		k := strings.Join(l, "\x00") + fmt.Sprint("/", len(l))
@@ -218,9 +229,14 @@ func knownClass(c muxCase, matches []int, rootRegistered bool) string {
 	return ""
 }
 
-func rootRegistered(c muxCase) bool {
+func rootRegistered(c muxCase) bool { return rootAt(c, len(c.ops())) }
+
+func rootAt(c muxCase, nops int) bool {
 	root := false
-	for _, op := range c.ops() {
+	for _, op := range c.ops()[:nops] {
+		if op.Lookup {
+			continue
+		}
 		if l, err := lowerLabels(op.Pattern); err == nil && len(l) == 0 {
 			root = !op.Remove
 		}
@@ -275,7 +291,9 @@ func checkRefused(c muxCase, req *dns.Msg, w *capture) error {
 func (c muxCase) opsText() string {
 	var sb strings.Builder
 	for i, op := range c.ops() {
-		if op.Remove {
+		if op.Lookup {
+			fmt.Fprintf(&sb, "[#%d ServeDNS]", i)
+		} else if op.Remove {
 			fmt.Fprintf(&sb, "[#%d HandleRemove(%q)]", i, op.Pattern)
 		} else {
 			fmt.Fprintf(&sb, "[#%d Handle(%q)]", i, op.Pattern)
@@ -302,10 +320,14 @@ func checkMux(c muxCase) error {
 		return nil
 	}
 	for _, op := range c.ops() {
-		if op.Pattern == "" {
+		if op.Pattern == "" && !op.Lookup {
 			pbt.Note(nil, false, "invalid-case")
 			return nil
 		}
+	}
+	if c.Pre < 0 || c.Pre > 3 || (c.Fresh != "" && c.Fresh != "new" && c.Fresh != "zero") {
+		pbt.Note(nil, false, "invalid-case")
+		return nil
 	}
 	want, matches, err := route(c)
 	if err != nil {
@@ -340,37 +362,105 @@ func checkMux(c muxCase) error {
 	}
 	pbt.Note(kb, len(matches) >= 2 || removalMatters || len(c.QName) >= 240, cls...)
 
-	mux := dns.NewServeMux()
+	fresh := "new"
+	if c.Fresh == "zero" {
+		fresh = "zero"
+	}
+	cls2 := []string{"mux=" + fresh, fmt.Sprintf("lookups-before-first-registration=%d", c.Pre)}
+	if c.Pre > 0 && len(c.ops()) > 0 {
+		cls2 = append(cls2, "lookup-then-registration-then-lookup")
+	}
+	nl := 0
+	for _, op := range c.Ops {
+		if op.Lookup {
+			nl++
+		}
+	}
+	if nl > 0 {
+		cls2 = append(cls2, "intermediate-lookups")
+	}
+	pbt.Class(cls2...)
+
+	// Every operation runs under a watchdog: a mux operation or a request that does not return is
+	// reported at once (and not retried: each attempt would leave a stuck goroutine behind).
+	var step atomic.Value
+	step.Store("start")
+	done := make(chan error, 1)
+	go func() { done <- runMux(c, want, matches, &step) }()
+	select {
+	case err := <-done:
+		return err
+	case <-time.After(muxWatchdog):
+		return pbt.NoShrink{Err: pbt.Errf("mux %s, operations %s question %q: %v did not return within %v (every later Handle/HandleRemove/ServeDNS on this mux would block as well)",
+			fresh, c.opsText(), c.QName, step.Load(), muxWatchdog)}
+	}
+}
+
+const muxWatchdog = 10 * time.Second
+
+// runMux executes the case: lookups on the fresh mux, the operation sequence with its intermediate
+// lookups (each compared with the reference for the operations done so far), the final lookup.
+func runMux(c muxCase, want int, matches []int, step *atomic.Value) error {
+	var mux *dns.ServeMux
+	if c.Fresh == "zero" {
+		mux = new(dns.ServeMux) // "The zero ServeMux is empty and ready for use."
+	} else {
+		mux = dns.NewServeMux()
+	}
 	var called []int
+	lookup := func(at int, want int, matches []int, what string) error {
+		called = nil
+		req := c.request()
+		w := &capture{}
+		step.Store(what)
+		mux.ServeDNS(w, req)
+		if want < 0 {
+			if len(called) != 0 {
+				return pbt.Errf("operations %s question %q type %d, %s: handler of %q (#%d) called, expected REFUSED", c.opsText(), c.QName, c.QType, what, c.opName(called[0]), called[0])
+			}
+			return checkRefused(c, req, w)
+		}
+		if len(called) != 1 || called[0] != want {
+			got := "REFUSED/none"
+			if len(called) > 0 {
+				got = fmt.Sprintf("%q (#%d)", c.opName(called[0]), called[0])
+			}
+			return pbt.Errf("operations %s question %q type %s, %s: routed to %s, expected %q (#%d); matching registrations longest first: %v",
+				c.opsText(), c.QName, dns.Type(c.QType), what, got, c.opName(want), want, matches)
+		}
+		if len(w.msgs)+len(w.raw) != 0 {
+			return pbt.Errf("the mux wrote a reply although a handler was found")
+		}
+		return nil
+	}
+	for k := 0; k < c.Pre; k++ {
+		if err := lookup(0, -1, nil, fmt.Sprintf("ServeDNS #%d on the fresh mux (before any registration)", k)); err != nil {
+			return err
+		}
+	}
 	for i, op := range c.ops() {
 		i := i
-		if op.Remove {
+		switch {
+		case op.Lookup:
+			w, m, err := routeAt(c, i)
+			if err != nil {
+				return nil
+			}
+			if k := knownClass(c, m, rootAt(c, i)); k != "" && excludedNow(k, c, m) {
+				continue
+			}
+			if err := lookup(i, w, m, fmt.Sprintf("ServeDNS at step #%d", i)); err != nil {
+				return err
+			}
+		case op.Remove:
+			step.Store(fmt.Sprintf("step #%d HandleRemove(%q)", i, op.Pattern))
 			mux.HandleRemove(op.Pattern)
-		} else {
+		default:
+			step.Store(fmt.Sprintf("step #%d Handle(%q)", i, op.Pattern))
 			mux.HandleFunc(op.Pattern, func(w dns.ResponseWriter, r *dns.Msg) { called = append(called, i) })
 		}
 	}
-	req := c.request()
-	w := &capture{}
-	mux.ServeDNS(w, req)
-	if want < 0 {
-		if len(called) != 0 {
-			return pbt.Errf("operations %s question %q type %d: handler of %q (#%d) called, expected REFUSED", c.opsText(), c.QName, c.QType, c.opName(called[0]), called[0])
-		}
-		return checkRefused(c, req, w)
-	}
-	if len(called) != 1 || called[0] != want {
-		got := "REFUSED/none"
-		if len(called) > 0 {
-			got = fmt.Sprintf("%q (#%d)", c.opName(called[0]), called[0])
-		}
-		return pbt.Errf("operations %s question %q type %s: routed to %s, expected %q (#%d); matching registrations longest first: %v",
-			c.opsText(), c.QName, dns.Type(c.QType), got, c.opName(want), want, matches)
-	}
-	if len(w.msgs)+len(w.raw) != 0 {
-		return pbt.Errf("the mux wrote a reply although a handler was found")
-	}
-	return nil
+	return lookup(len(c.ops()), want, matches, "final ServeDNS")
 }
 
 // ---------------------------------------------------------------------------------------------
@@ -582,6 +672,30 @@ func genMux(t *rapid.T) muxCase {
 			c.Ops = []regOp{{Remove: true, Pattern: c.Patterns[0]}}
 		}
 	}
+	// life cycle: how the mux is created, requests served before the first registration, and
+	// requests between the registration operations
+	if rapid.IntRange(0, 3).Draw(t, "zeromux") == 0 {
+		c.Fresh = "zero"
+	}
+	if rapid.IntRange(0, 3).Draw(t, "prelookup") == 0 {
+		c.Pre = rapid.IntRange(1, 2).Draw(t, "pre")
+	}
+	if rapid.IntRange(0, 3).Draw(t, "midlookups") == 0 {
+		if len(c.Ops) == 0 && len(c.Patterns) > 0 { // make room for lookups between the registrations
+			for _, p := range c.Patterns {
+				c.Ops = append(c.Ops, regOp{Pattern: p})
+			}
+			c.Patterns = nil
+		}
+		var ops []regOp
+		for _, op := range c.Ops {
+			if rapid.IntRange(0, 2).Draw(t, "lk") == 0 {
+				ops = append(ops, regOp{Lookup: true})
+			}
+			ops = append(ops, op)
+		}
+		c.Ops = ops
+	}
 	c.NQ = rapid.SampledFrom([]int{1, 1, 1, 1, 1, 1, 1, 1, 1, 1, 2, 2, 0}).Draw(t, "nq")
 	c.ID = uint16(rapid.IntRange(0, 65535).Draw(t, "id"))
 	if rapid.IntRange(0, 3).Draw(t, "otherop") == 0 {
@@ -718,7 +832,13 @@ func checkMuxRace(c muxRaceCase) error {
 		}(ops)
 	}
 	close(start)
-	wg.Wait()
+	fin := make(chan struct{})
+	go func() { wg.Wait(); close(fin) }()
+	select {
+	case <-fin:
+	case <-time.After(muxWatchdog):
+		return pbt.NoShrink{Err: pbt.Errf("concurrent mux use: the workers did not finish within %v (a mux operation or request does not return)", muxWatchdog)}
+	}
 	if len(errs) > 0 {
 		return pbt.Errf("concurrent mux use: %s", strings.Join(errs, "; "))
 	}
